@@ -61,7 +61,12 @@ theorem hist_step (n : Nat) (s : St) (t : Nat) (h : Hist n s) : Hist n (step s t
   · -- ePub
     dsimp only
     split
+    · exact h.q [.step t] (by nocan) _ rfl rfl
     · exact h.q [.step t, .ack t] (by nocan) _ rfl rfl
+    · exact h.q [.step t] (by nocan) _ rfl rfl
+  · -- ePubLen
+    dsimp only
+    split
     · exact h.q [.step t, .ack t] (by nocan) _ rfl rfl
     · exact h.q [.step t] (by nocan) _ rfl rfl
   · -- dCons
@@ -76,7 +81,12 @@ theorem hist_step (n : Nat) (s : St) (t : Nat) (h : Hist n s) : Hist n (step s t
   · -- dFree
     dsimp only
     split
+    · exact h.free [.step t] (by nocan) _ rfl rfl
     · exact h.free [.step t, .ack t] (by nocan) _ rfl rfl
+    · exact h.free [.step t] (by nocan) _ rfl rfl
+  · -- dFreeLen
+    dsimp only
+    split
     · exact h.free [.step t, .ack t] (by nocan) _ rfl rfl
     · exact h.free [.step t] (by nocan) _ rfl rfl
   · exact h.free [] (by nocan) _ rfl rfl
